@@ -253,6 +253,7 @@ contract(
     # every `if` keeps its two paths apart ((non-BMP or not) x (UVS or not)): four simple post-states instead of one
     # with ite-merged heap arrays and lambda-defined dicts (which took the solvers 5-16 s per clause)
     merge_branches=False,
+    modifies=["TTFont.tbl:cmap"],  # frame: the only pre-existing object written is the font (its 'cmap' slot); everything else is new
     locals={"uvsList": List(lib.UVS_ENTRY), "uvsDict": Dict(INT, List(lib.UVS_ENTRY))},
     hints={"uvsDict = dict()": [f"all(k in mapping and mapping[k] == {_M}[k] for k in {_M})"]},
     ghost_vars={"wv": (Dict(INT, INT), "{}")},
@@ -449,39 +450,6 @@ def _g_drawPoints(ex, st, self, args, kwargs, node):
 
 _g_drawPoints.modifies = ["StubGlyph.drawn_from", "StubGlyph.drawn_reversed"]
 
-_FRAME_FIELDS = ("name", "unicodes", "width")
-
-
-def _frame(kind):
-    """Frame condition as a derived Bool (needs the pre-state, so only meaningful inside a postcondition):
-    `fresh-only`: every glyph object that existed in the pre-state has the same name / unicodes / width as in the pre-state;
-    `only-self` : the same for every glyph object other than the receiver.
-    (The clause language has no quantifier over all objects; this states one with the heap arrays of both states.)"""
-
-    def derived(ex, st, self):
-        from pyvc.core import ContractMisfit
-        from pyvc.symex import BIRTH
-
-        old = ex.old_state
-        if old is None:
-            raise ContractMisfit("frame view used outside a postcondition")
-        r = _z3.Const("r!frame", T.RefSort)
-        t0 = old.alloc if old.alloc is not None else _z3.Int("now0")
-        guard = (BIRTH(r) < t0) if kind == "fresh-only" else (r != ex_lift(self, Ref("StubGlyph")))
-        same = []
-        for f in _FRAME_FIELDS:
-            cur = ex.field_array(st, "StubGlyph", f)
-            was = ex.field_array(old, "StubGlyph", f)  # (a field array first touched after the pre-state snapshot is the initial one, H0_…)
-            if cur is was or _z3.eq(cur, was):
-                continue  # field array untouched
-            same.append(_z3.Select(cur, r) == _z3.Select(was, r))
-        if not same:
-            return Val.const(True)
-        return Val(BOOL, _z3.ForAll([r], _z3.Implies(guard, _z3.And(*same))))
-
-    return derived
-
-
 cls("C03_PointPen", fields={"target": Ref("StubGlyph"), "reversing": BOOL}, notes="point pen writing into a glyph; `reversing`: wrapped in ReverseContourPointPen (assumed pen protocol)")
 cls("C03_Component", fields={"baseGlyph": STR}, notes="component reference")
 cls(
@@ -492,8 +460,6 @@ cls(
         "drawn_from": Opt(Ref("StubGlyph")), "drawn_reversed": BOOL,
     },
     dynamic=True,
-    derived={"frame_fresh_only": _frame("fresh-only"), "frame_only_self": _frame("only-self")},
-    views={"frame_fresh_only": lambda o: True, "frame_only_self": lambda o: True},  # not observable natively
     methods={"_drawDefaultNotdef": _bound("_drawDefaultNotdef"), "_drawDefaultNotdefPoints": _bound("_drawDefaultNotdefPoints"), "getPointPen": _g_getPointPen, "drawPoints": _g_drawPoints},
     repo="ufo2ft.outlineCompiler:StubGlyph",
     notes="a glyph object as the '.notdef' machinery sees it (source glyph, copy or StubGlyph): name, metrics, unicodes; drawn_from / drawn_reversed = "
@@ -506,7 +472,8 @@ def _stub_contract(name, uni_ty, uni_expr, first_expr):
         name=name,
         props=["C03"],
         params={"self": Ref("StubGlyph"), "name": STR, "width": INT, "unitsPerEm": INT, "ascender": INT, "descender": INT, "unicodes": uni_ty, "reverseContour": BOOL},
-        modifies=[f"StubGlyph.{f}" for f in ("name", "width", "unitsPerEm", "ascender", "descender", "unicodes", "components", "anchors", "unicode", "reverseContour", "lib")],
+        # frame (checked): only the object under construction is written
+        modifies=[f"self.{f}" for f in ("name", "width", "unitsPerEm", "ascender", "descender", "unicodes", "components", "anchors", "unicode", "reverseContour", "lib")],
         ensures={
             "name": "self.name == name",
             "metrics": "self.width == width and self.unitsPerEm == unitsPerEm and self.ascender == ascender and self.descender == descender",
@@ -515,7 +482,6 @@ def _stub_contract(name, uni_ty, uni_expr, first_expr):
             "unicode": f"self.unicode == {first_expr}",
             "empty": "len(self.components) == 0 and len(self.anchors) == 0 and len(self.lib) == 0",
             "direction": "self.reverseContour == reverseContour",
-            "frame": "self.frame_only_self",
         },
         canaries={"never-reversed": "not self.reverseContour"},
     )
@@ -586,7 +552,7 @@ _COPY = contract(
     returns=Ref("StubGlyph"),
     globals={"_getNewGlyphFactory": Val.obj(FuncRef(None, "c03.getNewGlyphFactory"))},
     models={"copy.deepcopy": _deepcopy, "fontTools.pens.pointPen.ReverseContourPointPen": _rcpp},
-    modifies=[f"StubGlyph.{f}" for f in ("name", "width", "height", "unicodes", "anchors", "lib", "drawn_from", "drawn_reversed")],
+    modifies=[],  # frame (checked): nothing that existed before is written — the source glyph included; every store goes to the new copy
     ensures={
         "a-copy": "result is not glyph and fresh(result)",
         "name": "result.name == glyph.name",
@@ -594,8 +560,7 @@ _COPY = contract(
         "unicodes": "result.unicodes == glyph.unicodes",
         "metrics": "result.width == glyph.width and result.height == glyph.height",
         "outline": "result.drawn_from == glyph and result.drawn_reversed == reverseContour",
-        # frame: no glyph object that existed before (the source glyph included) changes name, code points or width
-        "frame": "glyph.frame_fresh_only",
+        "source-untouched": "glyph.name == old(glyph.name) and glyph.unicodes == old(glyph.unicodes) and glyph.width == old(glyph.width)",
     },
     canaries={"never-reversed": "not result.drawn_reversed"},
 )
@@ -705,13 +670,13 @@ def _upm(attr):
     return f"otRound(getAttrWithFallback(font.info, '{attr}'))"
 
 
-# glyph objects that are in the set exist (trivially true at the call site; the engine does not assume it for references read
-# out of a dict, and a freshly created stub must not alias them)
-_MMRG_REQUIRES = [f"all(allocated({_GS}[g]) for g in {_GS})"]
-_G["allocated"] = lambda x: True  # natively: every object at hand exists
+# the glyph objects in the set exist (trivially true at every call site; the heap-derived views `uni` / `gname` read references
+# inside a lambda, where the engine cannot attach its "no dangling reference" assumption, and a new stub must not alias them)
+_ALL_ALLOC = f"all(allocated({_GS}[g]) for g in {_GS})"
 
 _MMRG_ENSURES = {
     "notdef-present": "'.notdef' in glyphSet",
+    "glyph-objects-exist": _ALL_ALLOC,
     # the glyphs that were there keep their names and code points (what the glyph order and the character map are built from)
     "glyphs-keep-name-and-code-points": f"all(glyphSet.uni[g] == old(glyphSet.uni)[g] and glyphSet.gname[g] == old(glyphSet.gname)[g] for g in old({_GS}))",
     # every glyph that was there is still there, the same object ...
@@ -732,9 +697,9 @@ _MMRG = contract(
     props=["C03"],
     params={"self": Ref("NotdefCompiler"), "font": Ref("Font"), "glyphSet": Ref("NotdefGlyphSet"), "sfntVersion": STR, "notdefGlyph": Opt(Ref("StubGlyph"))},
     globals=_G,
-    requires=_MMRG_REQUIRES,
+    requires=[_ALL_ALLOC],
     calls={"ufo2ft.util:_copyGlyph": "ufo2ft.util:_copyGlyph#c03"},
-    modifies=["NotdefGlyphSet.glyphs"] + sorted(set(_COPY.modifies) | set(CONTRACTS["ufo2ft.outlineCompiler:StubGlyph.__init__"].modifies)),
+    modifies=["glyphSet.glyphs"],  # frame (checked): the dict is the only pre-existing thing written; glyph objects are only created
     ensures=_MMRG_ENSURES,
     canaries={"always-synthesised": f"{_N}.name == '.notdef' and len({_N}.unicodes) == 0"},
 )
@@ -777,3 +742,47 @@ def _mmrg_build(flavor):
 
 
 _MMRG.runtime = Runtime(_mmrg_cases, _mmrg_build("otf"), call=lambda fn, a: fn(a["self"], a["font"], a["glyphSet"], a["sfntVersion"], a["notdefGlyph"]))
+
+
+# ---- OutlineTTFCompiler.makeMissingRequiredGlyphs: the base method, then (sparse non-default masters only) empty stand-ins for
+# missing component bases.  What C03 needs from it: '.notdef' as in the base method; nothing that was there is touched; anything else
+# that is added is an EMPTY glyph named like its key — no code points, so the character map cannot see it.
+def _glyphFactory_method(ex, st, self, args, kwargs, node):
+    """self.glyphFactory() == _getNewGlyphFactory(<new glyph object of the default layer>): the same kind of factory (trusted summary)"""
+    return ex.new_object(st, "C03_GlyphFactory")
+
+
+CLASSES["NotdefCompiler"].repo = "ufo2ft.outlineCompiler:OutlineTTFCompiler"  # (the base contract's body calls no method of self)
+CLASSES["NotdefCompiler"].methods["glyphFactory"] = _glyphFactory_method
+CLASSES["StubGlyph"].fields.setdefault("height", REAL)
+
+_TT_KEPT = f"all(g in {_GS} and glyphSet.ident[g] == g1[g] and glyphSet.uni[g] == u1[g] and glyphSet.gname[g] == n1[g] for g in g1)"
+_TT_ADDED = f"all(g in g1 or (glyphSet.gname[g] == g and len(glyphSet.uni[g]) == 0) for g in {_GS})"
+_TT_INV = {"exist": _ALL_ALLOC, "kept": _TT_KEPT, "added-are-empty": _TT_ADDED}
+
+_MMRG_TT = contract(
+    "ufo2ft.outlineCompiler:OutlineTTFCompiler.makeMissingRequiredGlyphs",
+    props=["C03"],
+    params={"self": Ref("NotdefCompiler"), "font": Ref("Font"), "glyphSet": Ref("NotdefGlyphSet"), "sfntVersion": STR, "notdefGlyph": Opt(Ref("StubGlyph"))},
+    globals=_G,
+    requires=[_ALL_ALLOC],
+    # (the stand-ins are NEW objects, but they are written inside loops, whose havoc is per field array: listed for the frame check;
+    #  what happens to the glyphs that were there is stated by the ensures)
+    modifies=["NotdefGlyphSet.glyphs"] + [f"StubGlyph.{f}" for f in ("name", "unicodes", "width", "height", "drawn_from")],
+    ensures={
+        **{k: _MMRG_ENSURES[k] for k in ("notdef-present", "glyph-objects-exist", "glyphs-keep-name-and-code-points", "others-untouched")},
+        "only-notdef-added": f"implies(self.compilingVFDefaultSource, {_MMRG_ENSURES['only-notdef-added']})",
+        "stand-ins-are-empty": f"all(g == '.notdef' or g in old({_GS}) or (glyphSet.gname[g] == g and len(glyphSet.uni[g]) == 0) for g in {_GS})",
+        "synthesised-notdef": f"implies({_ABSENT} and notdefGlyph is None, glyphSet.gname['.notdef'] == '.notdef' and len(glyphSet.uni['.notdef']) == 0)",
+        "copied-notdef": f"implies({_ABSENT} and notdefGlyph is not None, glyphSet.gname['.notdef'] == old(notdefGlyph.name) and glyphSet.uni['.notdef'] == old(notdefGlyph.unicodes))",
+    },
+    canaries={"never-adds-stand-ins": _MMRG_ENSURES["only-notdef-added"]},
+    # ghosts: the glyph set as the base method leaves it (objects, code points, names)
+    ghost_vars={"g1": (Dict(STR, Ref("StubGlyph")), "glyphSet.glyphs"), "u1": (Map(STR, List(INT)), "glyphSet.uni"), "n1": (Map(STR, STR), "glyphSet.gname")},
+    ghost={"super().makeMissingRequiredGlyphs(font, glyphSet, sfntVersion, notdefGlyph)": ["g1 = glyphSet.glyphs", "u1 = glyphSet.uni", "n1 = glyphSet.gname"]},
+    loops={
+        "for glyphName in list(glyphSet.keys())": Loop(index="i", seq="KS", invariants=dict(_TT_INV)),
+        "for comp in glyph.components": Loop(index="j", invariants=dict(_TT_INV)),
+    },
+)
+_MMRG_TT.runtime = Runtime(_mmrg_cases, _mmrg_build("ttf"), call=lambda fn, a: fn(a["self"], a["font"], a["glyphSet"], a["sfntVersion"], a["notdefGlyph"]))
